@@ -81,3 +81,15 @@ Definition lk_order_graph : list edge :=
 (* for the report: the edges as names *)
 Definition lk_order_names : list (string * string) :=
   map (fun e => (obj_name (fst e) lk_objects, obj_name (snd e) lk_objects)) lk_order_graph.
+(* for the report: the edges that lie on a cycle of the order (b reaches a again), with the unlisted functions that nest the
+   two mutexes that way; empty when the order has no cycle *)
+Fixpoint nmem (x : N) (l : list N) : bool := match l with [] => false | y :: r => N.eqb x y || nmem x r end.
+Definition succs (G : list edge) (front : list N) : list N :=
+  fold_right (fun e acc => if nmem (fst e) front && negb (nmem (snd e) acc) then snd e :: acc else acc) front G.
+Fixpoint closure (n : nat) (G : list edge) (front : list N) : list N :=
+  match n with O => front | S k => closure k G (succs G front) end.
+Definition on_cycle (G : list edge) (e : edge) : bool := nmem (fst e) (closure (length G) G [snd e]).
+Definition lk_order_report : list (string * string * list string) :=
+  map (fun e => (obj_name (fst e) lk_objects, obj_name (snd e) lk_objects,
+                 map fst (filter (fun p => emem e (fn_edges lk_fuel (snd p))) lk_ok_fns)))
+      (filter (on_cycle lk_order_graph) lk_order_graph).
